@@ -138,9 +138,8 @@ func newV2(prefix string, ct *Controllers) (cg Cgroup, err error) {
 	v2 := &V2{
 		path:    filepath.Join(basePath, prefix),
 		control: ct,
-	}
-	if _, err := os.Stat(v2.path); err == nil {
-		v2.existing = true
+		// the handle owns the group only if this call creates its directory
+		existing: true,
 	}
 	defer func() {
 		if err != nil && !v2.existing {
@@ -155,15 +154,16 @@ func newV2(prefix string, ct *Controllers) (cg Cgroup, err error) {
 	// start from base dir
 	entries := strings.Split(prefix, "/")
 	current := ""
-	for _, e := range entries {
+	for i, e := range entries {
 		parent := current
 		current = current + "/" + e
-		// try mkdir if not exists
-		if _, err := os.Stat(filepath.Join(basePath, current)); os.IsNotExist(err) {
-			if err := os.Mkdir(filepath.Join(basePath, current), dirPerm); err != nil {
-				return nil, err
+		// try mkdir if not exists; mkdir is atomic, so of several concurrent
+		// creators exactly one creates (and owns) the directory
+		if err := os.Mkdir(filepath.Join(basePath, current), dirPerm); err == nil {
+			if i == len(entries)-1 {
+				v2.existing = false
 			}
-		} else if err != nil {
+		} else if !os.IsExist(err) {
 			return nil, err
 		}
 
